@@ -7,6 +7,8 @@ from sa import renames
 from sa.model import Program
 
 os.path.exists(renames.TABLE) and os.remove(renames.TABLE)
+# recover() compares on the trees as parsed (it runs before the normalisations): the table is taken from the same state
+os.environ["VERIF_NO_NORMALISE"] = "1"
 p = Program(sys.argv[1] if len(sys.argv) > 1 else "/repo")
 t = renames.table_of(p.modules)
 json.dump(dict(sorted(t.items())), open(renames.TABLE, "w"), indent=1)
